@@ -36,7 +36,7 @@ class Session:
         self.watches = []
         self.ghost = {}
         self._int_solver = z3.Solver()
-        self._int_solver.set("timeout", 200)
+        self._int_solver.set("timeout", 50)
         self._decide_cache = {}
 
     def fresh(self, base, sort="Real"):
@@ -76,7 +76,9 @@ class Session:
         for c in self._capture:
             c.append(f)
         if self._int_solver is not None and _int_only(f):
-            self._int_solver.add(f)
+            lf = _linearize(f)
+            if lf is not None:
+                self._int_solver.add(lf)
             self._decide_cache.clear()
 
     def assume(self, f):
@@ -489,10 +491,99 @@ def _int_only(f):
             if e.decl().kind() == z3.Z3_OP_UNINTERPRETED and e.num_args() > 0:
                 ok = False
                 break
+            k = e.decl().kind()
+            # nonlinear index arithmetic (j*nx) is admitted: decide() works on the monomial abstraction (_linearize)
+            if k in (z3.Z3_OP_IDIV, z3.Z3_OP_MOD, z3.Z3_OP_REM) and not z3.is_int_value(e.arg(1)):
+                ok = False
+                break
             st.extend(e.children())
     _int_only_cache[i] = ok
     _KEEP.append((f, None))
     return ok
+
+
+_lin_cache = {}
+
+
+def _monomial(e):
+    """abstract a product of integer constants (after expansion) by one opaque integer variable"""
+    coef, fac = 1, []
+    st = [e]
+    while st:
+        x = st.pop()
+        if z3.is_int_value(x):
+            coef *= x.as_long()
+        elif z3.is_app(x) and x.decl().kind() == z3.Z3_OP_MUL:
+            st.extend(x.children())
+        elif z3.is_app(x) and x.decl().kind() == z3.Z3_OP_UMINUS:
+            coef = -coef
+            st.append(x.arg(0))
+        elif z3.is_const(x) and x.decl().kind() == z3.Z3_OP_UNINTERPRETED and x.sort() == z3.IntSort():
+            fac.append(x.decl().name())
+        else:
+            return None
+    if len(fac) < 2:
+        return None
+    return coef * z3.Int("mono!" + "*".join(sorted(fac)))
+
+
+def _linearize(e):
+    """integer-only formula with every nonlinear monomial (j*nx, nx*ny) replaced by an opaque integer variable, or
+    None when e is not pure index arithmetic.  The abstraction is weaker than e on the fact side and is applied to
+    facts and goal alike, so an entailment found on the abstraction holds for the real formulas."""
+    i = e.get_id()
+    if i in _lin_cache:
+        return _lin_cache[i]
+    _KEEP.append((e, None))
+    r = None
+    if z3.is_quantifier(e) or not z3.is_app(e):
+        pass
+    elif not z3.is_bool(e) and e.sort() != z3.IntSort():
+        pass
+    elif e.decl().kind() == z3.Z3_OP_UNINTERPRETED and e.num_args() > 0:
+        pass
+    elif e.num_args() == 0:
+        r = e
+    else:
+        k = e.decl().kind()
+        if k == z3.Z3_OP_MUL and sum(1 for c in e.children() if not z3.is_int_value(c)) > 1:
+            x = z3.simplify(e, som=True)
+            terms = x.children() if z3.is_app(x) and x.decl().kind() == z3.Z3_OP_ADD else [x]
+            acc = []
+            for t in terms:
+                if z3.is_int_value(t) or (z3.is_const(t) and t.sort() == z3.IntSort()):
+                    acc.append(t)
+                    continue
+                m = _monomial(t)
+                if m is None:
+                    lt = None
+                    if z3.is_app(t) and t.decl().kind() == z3.Z3_OP_MUL and \
+                            sum(1 for c in t.children() if not z3.is_int_value(c)) <= 1 and t.get_id() != e.get_id():
+                        lt = _linearize(t)
+                    if lt is None:
+                        acc = None
+                        break
+                    acc.append(lt)
+                else:
+                    acc.append(m)
+            if acc is not None:
+                r = acc[0] if len(acc) == 1 else z3.Sum(acc)
+        elif k in (z3.Z3_OP_IDIV, z3.Z3_OP_MOD, z3.Z3_OP_REM) and not z3.is_int_value(e.arg(1)):
+            pass
+        else:
+            ch = [_linearize(c) for c in e.children()]
+            if all(c is not None for c in ch):
+                if all(a.get_id() == b.get_id() for a, b in zip(ch, e.children())):
+                    r = e
+                else:
+                    try:
+                        r = e.decl()(*ch)
+                    except Exception:
+                        r = None
+    _lin_cache[i] = r
+    if r is not None:
+        _KEEP.append((r, None))
+    return r
 
 
 def decide(c):
@@ -502,6 +593,9 @@ def decide(c):
         return c
     if not _int_only(c):
         return None
+    c = _linearize(c)
+    if c is None:
+        return None
     s = cur()
     key = (c.get_id(), len(s.pc))
     if key in s._decide_cache:
@@ -509,7 +603,8 @@ def decide(c):
     sol = s._int_solver
     if sol is None:
         return None
-    assum = [p for p in s.pc if _int_only(p)]
+    assum = [_linearize(p) for p in s.pc if _int_only(p)]
+    assum = [p for p in assum if p is not None]
     r = None
     if sol.check(*(assum + [z3.Not(c)])) == z3.unsat:
         r = True
